@@ -240,8 +240,12 @@ pub fn far_apart_family_level(level: usize) -> ListSpace {
         }
         let mut f = Vec::with_capacity(fillers + 8);
         f.push(class("o.Far", "f"));
-        f.push(method(None, None, "create", "", Orig::None, "c"));
+        // the first of the two same-name entries sits behind 1000 fillers (a position counter that wraps at 2^16
+        // would give the later one the smaller position)
         for i in 0..fillers {
+            if i == 1000 {
+                f.push(method(None, None, "create", "", Orig::None, "c"));
+            }
             f.push(method(None, None, leak(&format!("orig{}", i)), if with_args { leak(&format!("a.T{}", i)) } else { "" }, Orig::None, leak(&format!("m{}", i))));
         }
         f.push(method(None, None, "create", "int", Orig::None, "c"));
